@@ -706,6 +706,7 @@ fn prefix_words(kind: &str, k: usize) -> Vec<u64> {
         "zeros" => vec![0; k],
         "ones" => vec![u64::MAX; k],
         "alt" => (0..k).map(|i| if i % 2 == 0 { 0 } else { u64::MAX }).collect(),
+        "tla" => (0..k).map(|i| if i % 2 == 0 { u64::MAX } else { 0 }).collect(),
         "alt2" => (0..k).map(|i| if i % 2 == 0 { 0xaaaa_aaaa_aaaa_aaaa } else { 0x5555_5555_5555_5555 }).collect(),
         "top" => vec![0xffff_ffff_ffff_f000; k],
         "low" => vec![0x0000_0000_0000_0fff; k],
@@ -759,7 +760,11 @@ fn emit_c13(w: &mut dyn Write, id: &str, label: &str, d: Dist, pk: &str, k: usiz
     };
     match r {
         Outcome::Done((ret, log, words, total)) => {
-            let _ = writeln!(w, "o res {}", if ret.is_some() { "ok" } else { "panic" });
+            if ret.is_some() {
+                let _ = writeln!(w, "o res ok");
+            } else {
+                let _ = writeln!(w, "o res panic {}", crate::util::take_panic_site());
+            }
             let ws: Vec<String> = words.iter().map(|(k, x)| format!("{}:{:x}", k, x)).collect();
             let _ = writeln!(w, "o words {} {}", total, ws.join(" "));
             for e in &log {
@@ -772,7 +777,7 @@ fn emit_c13(w: &mut dyn Write, id: &str, label: &str, d: Dist, pk: &str, k: usiz
             }
         }
         Outcome::Panic => {
-            let _ = writeln!(w, "o res panic");
+            let _ = writeln!(w, "o res panic {}", crate::util::take_panic_site());
         }
         Outcome::Hang => {
             let _ = writeln!(w, "o res hang");
@@ -791,7 +796,7 @@ const MAXES: &[u64] = &[
 ];
 const PREFIXES: &[(&str, usize)] = &[
     ("none", 0), ("zeros", 1), ("zeros", 4), ("zeros", 64), ("ones", 1), ("ones", 4), ("ones", 64),
-    ("alt", 2), ("alt", 9), ("alt2", 8), ("top", 3), ("low", 3),
+    ("alt", 2), ("alt", 9), ("alt2", 8), ("top", 3), ("low", 3), ("tla", 2), ("tla", 9),
 ];
 
 fn gen_c13(seed: u64, rounds: u64, wd: u64, w: &mut dyn Write) {
